@@ -17,6 +17,7 @@ MODULES = [
     "contracts.c_state",
     "contracts.c_text",
     "contracts.c_langsel",
+    "contracts.c_frontend",
 ]
 
 STANDINS = [
@@ -42,6 +43,8 @@ STANDINS = [
      "props": ["C01"], "timeout": {"quick": 900, "thorough": 3600}},
     {"name": "front_en_relative", "module": "standins.front_en", "args": ["--part", "relative"],
      "props": ["C04"], "timeout": {"quick": 900, "thorough": 3600}},
+    {"name": "front_en_timeonly", "module": "standins.front_en", "args": ["--part", "timeonly"],
+     "props": ["C09", "C02"], "timeout": {"quick": 900, "thorough": 3600}},
     {"name": "front_en_order", "module": "standins.front_en", "args": ["--part", "order"],
      "props": ["C07"], "timeout": {"quick": 900, "thorough": 3600}},
     {"name": "vocab_names", "module": "standins.vocab_names", "props": ["C05"],
